@@ -50,6 +50,12 @@ type Gen struct {
 	heavyCap    math.Int
 	heavyPrices []string
 	heavyDone   map[uint64]bool
+	// directed scenario "snipe": in an extended round two bidders outbid everybody at a new top price with more than
+	// the offer between them, so that the next matching matches nothing at all
+	snipeDone map[uint64]bool
+	snipeU    [2]int
+	snipeAmt  math.Int
+	snipePx   string
 }
 
 var profiles = map[string]map[string]int{
@@ -72,7 +78,7 @@ func init() {
 var profileOrder = []string{"fixed", "batch", "multi", "hooks", "genesis", "fault", "malformed", "batch", "crowd", "fixed", "crowd", "multi", "extreme", "heavy"}
 
 func NewGen(seed uint64, e *Env, profile string) *Gen {
-	return &Gen{r: &Rng{seed}, e: e, profile: profile, w: profiles[profile], heavyDone: map[uint64]bool{}}
+	return &Gen{r: &Rng{seed}, e: e, profile: profile, w: profiles[profile], heavyDone: map[uint64]bool{}, snipeDone: map[uint64]bool{}}
 }
 
 func (g *Gen) bad() int { // percentage of deliberately malformed field values
@@ -804,6 +810,36 @@ func (g *Gen) Next() Op {
 			break
 		}
 	}
+	if (g.profile == "heavy" || g.profile == "batch" || g.profile == "crowd") && len(g.pending) == 0 {
+		for _, a := range as {
+			if a.GetType() != types.AuctionTypeBatch || a.GetStatus() != types.AuctionStatusStarted || len(a.GetEndTimes()) < 2 || g.snipeDone[a.GetId()] || !g.r.P(50) {
+				continue
+			}
+			g.snipeDone[a.GetId()] = true
+			bs, _ := g.e.k.GetBidsByAuctionId(g.e.ctx, a.GetId())
+			if len(bs) == 0 {
+				continue
+			}
+			top := bs[0].Price
+			for _, b := range bs {
+				if b.Price.GT(top) {
+					top = b.Price
+				}
+			}
+			supply := a.GetSellingCoin().Amount
+			if supply.LT(math.NewInt(4)) {
+				continue
+			}
+			g.heavyA = a.GetId()
+			// not the last account, which is the poor one
+			g.snipeU = [2]int{g.r.N(NUsers - 1), 0}
+			g.snipeU[1] = (g.snipeU[0] + 1 + g.r.N(NUsers-2)) % (NUsers - 1)
+			g.snipeAmt = mulDiv(supply, 3, 5).AddRaw(1)
+			g.snipePx = encDec(top.Add(math.LegacyNewDecWithPrec(1, int64(g.r.PickI(0, 1, 18)))))
+			g.pending = []string{"SNIPE_ADD", "SNIPE_BID0", "SNIPE_BID1", "HEND"}
+			break
+		}
+	}
 	// an auction nobody may bid in is dull: allow-list somebody soon
 	for _, a := range as {
 		if (a.GetStatus() == types.AuctionStatusStarted || a.GetStatus() == types.AuctionStatusStandBy) && len(g.allowedOf(a.GetId())) == 0 && g.r.P(40) {
@@ -859,6 +895,20 @@ func (g *Gen) Next() Op {
 	switch kind {
 	case "HBID":
 		return g.heavyBid()
+	case "SNIPE_ADD":
+		return NewOp("APIADD", "a", fmt.Sprint(g.heavyA), "l", fmt.Sprintf("%d/u%d/%s;%d/u%d/%s", g.heavyA, g.snipeU[0], g.snipeAmt, g.heavyA, g.snipeU[1], g.snipeAmt))
+	case "SNIPE_BID0", "SNIPE_BID1":
+		for _, a := range as {
+			if a.GetId() == g.heavyA {
+				u := g.snipeU[0]
+				if kind == "SNIPE_BID1" {
+					u = g.snipeU[1]
+				}
+				return NewOp("BID", "who", fmt.Sprintf("u%d", u), "a", fmt.Sprint(g.heavyA), "bt", "3", "price", g.snipePx,
+					"coin", fmt.Sprint(denomIdx(a.GetSellingCoin().Denom))+":"+g.snipeAmt.String())
+			}
+		}
+		return g.bid()
 	case "HEND":
 		for _, a := range as {
 			if a.GetId() == g.heavyA && len(a.GetEndTimes()) > 0 {
